@@ -181,7 +181,10 @@ ApOpenReq(o, e) ==
       o6 == IF isReopen \/ o.high[v] < 0 THEN o5
             ELSE Check(Check(o5, exact, "C02", "stream requested with something else than the persisted checkpoint / auto-reset position"),
                        e.end = (IF o.finite THEN o.high[v] ELSE MAXSEQ), "C02", "requested end is not what the dcp mode prescribes")
-  IN  Check(o6, ~o.mustdie, "C15", "start-up went on after a failed query or an inconsistent checkpoint")
+  \* (the stream requests of one Open are issued by concurrent goroutines: a request for another vBucket may still
+  \*  go out while the goroutine that hit the fail-stop condition is about to stop the process - not judged here;
+  \*  AfterStreamStart, a delivery, or a process that is still up once the step is over are)
+  IN  o6
 
 \* the server's answer: e.uuid = first failover entry; e.rollback = TRUE when the stream was
 \* opened after a rollback to e.r (then e.f = position the client had reached)
